@@ -36,21 +36,24 @@ def run_op(case, rng, cls, faces, meta, g, m):
         maxerr['diffusion-const'] = e
         if not (e <= TOL):
             bad.append(('diffusion-const', 'diffusionTerm applied to the constant field %g is not zero (normalised %.3g)' % (c, e)))
-        div = np.asarray(pf.divergenceTerm(uf)).ravel()[rows]
-        # natural scale of c*div(u): sum of absolute face contributions
-        divabs = np.asarray(pf.divergenceTerm(gen.facevar(pf, m, [np.abs(a) for a in u]))).ravel()[rows]
-        # |div| of |u| is not the absolute sum (faces enter with +/-); use matrix-based scale instead
-        for name, builder in (('central', pf.convectionTerm), ('upwind', pf.convectionUpwindTerm)):
-            M = sp.csr_array(builder(uf))
-            lhs = (M @ x)[rows]
-            sc = absmv(M, x)[rows]
-            e = nerr(lhs, c * div, sc + np.abs(c * div))
-            maxerr[name + '-const'] = e
-            cov['op:' + name] = 1
-            if not (e <= TOL):
-                i = int(np.argmax(np.abs(lhs - c * div) / np.where(sc > 0, sc, 1)))
-                bad.append((name + '-const', '%s convection of the constant %g: cell %r gives %.12g, c*div(u) = %.12g (normalised %.3g)' % (
-                    name, c, tuple(map(int, np.unravel_index(int(rows[i]), g.full_shape()))), lhs[i], c * div[i], e)))
+        u0 = [a.copy() for a in u]                      # pristine copies: the reference must not depend on what builders did to `uf`
+        div = np.asarray(pf.divergenceTerm(gen.facevar(pf, m, u0))).ravel()[rows]
+        for rnd in (1, 2):                              # second round: the same FaceVariable object after every builder has seen it
+            for name, builder in (('upwind', pf.convectionUpwindTerm), ('central', pf.convectionTerm)):
+                M = sp.csr_array(builder(uf))
+                lhs = (M @ x)[rows]
+                sc = absmv(M, x)[rows]
+                e = nerr(lhs, c * div, sc + np.abs(c * div))
+                maxerr[name + '-const'] = max(maxerr.get(name + '-const', 0.0), e)
+                cov['op:' + name] = 1
+                if not (e <= TOL):
+                    i = int(np.argmax(np.abs(lhs - c * div) / np.where(sc > 0, sc, 1)))
+                    bad.append((name + '-const', '%s convection of the constant %g (evaluation %d with the same velocity object): cell %r gives %.12g, c*div(u) = %.12g (normalised %.3g)' % (
+                        name, c, rnd, tuple(map(int, np.unravel_index(int(rows[i]), g.full_shape()))), lhs[i], c * div[i], e)))
+            if rnd == 1:
+                pf.convectionTVDupwindRHSTerm(uf, pf.CellVariable(m, ones.copy()), pf.fluxLimiter('SUPERBEE'))
+            if bad:
+                break
         phi = pf.CellVariable(m, ones.copy())
         for name in LIMITERS:
             rhs = np.asarray(pf.convectionTVDupwindRHSTerm(uf, phi, pf.fluxLimiter(name)))
@@ -82,7 +85,7 @@ def matching_bc(rng, g, c, periodic):
 
 
 def make_flow(rng, g, periodic):
-    fam = str(rng.choice(['stream', 'stream', 'radial', 'uniform', 'zero']))
+    fam = str(rng.choice(['stream', 'stream', 'radial', 'uniform', 'zero', 'axis']))
     u = None
     if fam == 'stream':
         u = ops.stream_flow(rng, g, periodic_axes=periodic, amp=10 ** rng.uniform(-1, 1), walls=bool(rng.random() < 0.6))
@@ -90,6 +93,8 @@ def make_flow(rng, g, periodic):
         u = ops.radial_flow(g, float(rng.choice([-1, 1]) * 10 ** rng.uniform(-1, 1)))
     elif fam == 'uniform':
         u = ops.uniform_flow(rng, g)
+    elif fam == 'axis':
+        u, _k = ops.axis_flow(rng, g)
     if u is None:
         fam = 'zero'
         u = [np.zeros(g.face_shape(k)) for k in range(g.nd)]
